@@ -61,7 +61,7 @@ def _worker_chunk(args):
             _worker_chunk._inited = True
         for i in idxs:
             try:
-                one = isolate.call(_one_run, (base, i, tier), timeout=per_chunk_timeout // 2)
+                one = isolate.with_rundir(_one_run, (base, i, tier), timeout=per_chunk_timeout // 2)
             except isolate.ChildFailed as e:
                 if e.signal in isolate.CRASH_SIGNALS:
                     # the process executing the run was killed by a fault signal while running library code:
